@@ -58,7 +58,7 @@ class KH:
 
 
 def sym_kripke(n, aps=('p', 'q'), mods=CTL_MODS, fold=True, care_total=True, extra=(), fixed=None, perm=None,
-               bounds=None, max_unroll=400, states=None, S0=None, label_pool=None):
+               bounds=None, max_unroll=400, states=None, S0=None, label_pool=None, junk=None):
     """Build Kripke(S, R, L) through the real constructor with unknown transitions/labels.
     fixed: {unknown name: bool} values decided by forking.  perm: order in which states are presented (and iterated).
     states: concrete state objects (default 0..n-1).  Returns KH with vm, ctx, fr, T, lab, K, total, names."""
@@ -93,6 +93,8 @@ def sym_kripke(n, aps=('p', 'q'), mods=CTL_MODS, fold=True, care_total=True, ext
         s = MSet()
         for a in aps:
             s.put(label_pool[a] if label_pool else a, lab[a][i])
+        for jv in (junk or ()):
+            s.put(jv, True)
         ctx.setitem(L, st[i], s)
     total = total_of(T, n)
     if not fold or not care_total:
